@@ -144,6 +144,111 @@ def normalise(node):
     return node
 
 
+# ---------------------------------------------------------------------------------- args2cmd
+def shape_needquote(T, s, probe, scope=None):
+    """needquote = (" " in arg) or ("\t" in arg) or not arg"""
+    if not (isinstance(s, ast.Assign) and len(s.targets) == 1 and _is_name(s.targets[0], "needquote")
+            and isinstance(s.value, ast.BoolOp)):
+        return None
+    v = s.value
+    try:
+        assert isinstance(v.op, ast.Or) and len(v.values) == 3
+        chars = []
+        for c in v.values[:2]:
+            assert isinstance(c, ast.Compare) and len(c.ops) == 1 and isinstance(c.ops[0], ast.In)
+            assert isinstance(c.left, ast.Constant) and isinstance(c.left.value, str) and len(c.left.value) == 1
+            assert _is_name(c.comparators[0], "arg")
+            chars.append(ord(c.left.value))
+        n = v.values[2]
+        assert isinstance(n, ast.UnaryOp) and isinstance(n.op, ast.Not) and _is_name(n.operand, "arg")
+    except AssertionError:
+        raise U("needquote of an unknown shape")
+    if probe:
+        return ["needquote"]
+    return "let needquote := memN %d%%N arg || memN %d%%N arg || is_nil arg in\n" % (chars[0], chars[1])
+
+
+def _piece(T, e, scope):
+    """text of one element appended to result"""
+    if isinstance(e, ast.Constant) and isinstance(e.value, str):
+        return "[" + "; ".join("%d%%N" % ord(ch) for ch in e.value) + "]"
+    if _is_name(e) and T.cfg["kinds"].get(e.id) == "char":
+        if e.id not in scope:
+            raise U("name %s read before it is bound" % e.id)
+        return "[%s]" % e.id
+    # '\\' * len(bs_buf)*2   /   '\\' * len(bs_buf)
+    def times(x):
+        if isinstance(x, ast.BinOp) and isinstance(x.op, ast.Mult):
+            l = times(x.left)
+            if l is not None and isinstance(x.right, ast.Constant) and isinstance(x.right.value, int) and x.right.value >= 0:
+                return (l[0], "(%s * %d)%%nat" % (l[1], x.right.value))
+            if isinstance(x.left, ast.Constant) and isinstance(x.left.value, str) and len(x.left.value) == 1 and \
+                    isinstance(x.right, ast.Call) and _is_name(x.right.func, "len") and len(x.right.args) == 1 and \
+                    _is_name(x.right.args[0]) and T.cfg["kinds"].get(x.right.args[0].id) == "text":
+                if x.right.args[0].id not in scope:
+                    raise U("unbound name")
+                return (ord(x.left.value), "(length %s)" % x.right.args[0].id)
+        return None
+    t = times(e)
+    if t is None:
+        raise U("appended expression %s" % ast.dump(e))
+    return "(repeat %d%%N %s)" % t
+
+
+def shape_result_append(T, s, probe, scope=None):
+    """result.append(<piece>) / result.extend(<text variable>): result is the list of pieces"""
+    if not (isinstance(s, ast.Expr) and isinstance(s.value, ast.Call) and isinstance(s.value.func, ast.Attribute)
+            and _is_name(s.value.func.value, "result") and s.value.func.attr in ("append", "extend")):
+        return None
+    if len(s.value.args) != 1 or s.value.keywords:
+        raise U("result.%s arity" % s.value.func.attr)
+    if probe:
+        return ["result"]
+    a = s.value.args[0]
+    if s.value.func.attr == "append":
+        return "let result := result ++ [%s] in\n" % _piece(T, a, scope)
+    if not (_is_name(a) and T.cfg["kinds"].get(a.id) == "text" and a.id in scope):
+        raise U("result.extend of %s" % ast.dump(a))
+    return "let result := result ++ map (fun ch => [ch]) %s in\n" % a.id
+
+
+def normalise_cmd(node):
+    """return ''.join(result)  ->  return result   (the caller concatenates)"""
+    last = node.body[-1]
+    ok = (isinstance(last, ast.Return) and _method_call(last.value, "join", 1) and
+          isinstance(last.value.func.value, ast.Constant) and last.value.func.value.value == "" and
+          _is_name(last.value.args[0], "result"))
+    if not ok or sum(isinstance(n, ast.Return) for n in ast.walk(node)) != 1:
+        raise U("args2cmd must end in  return ''.join(result)")
+    if any(isinstance(n, (ast.Break, ast.Continue, ast.While, ast.Try, ast.With, ast.Raise, ast.Yield)) for n in ast.walk(node)):
+        raise U("unexpected control flow in args2cmd")
+    node.body[-1] = ast.Return(value=ast.Name(id="result", ctx=ast.Load()))
+    return node
+
+
+CFG_CMD = {
+    "name": "src_args2cmd_pieces",
+    "params": [("args", "list text"), ("sep", "text")],
+    "defaults": {"sep": "' '"},
+    "ret": "list text", "num": "Z",
+    "kinds": {"args": "list", "sep": "text", "result": "list", "needquote": "bool", "arg": "text", "bs_buf": "text",
+              "c": "char"},
+    "eqb": {"char": "N.eqb"},
+    "consts": {repr("\\"): "c_bs", repr('"'): "c_dq"},
+    "truthy": {"text": "src_nonempty", "list": "src_nonempty"},
+    "shapes": [shape_needquote, shape_result_append],
+}
+
+HEADER_CMD = """
+(* ---- args2cmd: result is the list of appended pieces; the function returns ''.join(result) ---- *)
+Open Scope N_scope.
+Definition src_nonempty {A} (l : list A) : bool := match l with [] => false | _ => true end.
+"""
+
+FOOTER_CMD = """Definition src_args2cmd (args : list text) (sep : text) : text := concat (src_args2cmd_pieces args sep).
+"""
+
+
 CFG = {
     "name": "src_format_int_list",
     "params": [("int_list", "list Z"), ("delim", "text"), ("range_delim", "text"), ("delim_space", "bool")],
@@ -175,7 +280,9 @@ Definition src_idx (l : list Z) (i : Z) : Z :=
 def generate(repo):
     path = os.path.join(repo, "boltons", "strutils.py")
     node = normalise(py2coq.get_function(path, "format_int_list"))
-    return {"C14_Src": HEADER % path + py2coq.Translator(dict(CFG)).function(node)}
+    cmd = normalise_cmd(py2coq.get_function(path, "args2cmd"))
+    return {"C14_Src": HEADER % path + py2coq.Translator(dict(CFG)).function(node)
+            + HEADER_CMD + py2coq.Translator(dict(CFG_CMD)).function(cmd) + FOOTER_CMD}
 
 
 if __name__ == "__main__":
